@@ -23,15 +23,26 @@ PROOF = "Gallia.Proofs.C06"
 DRIVER = "c06"
 ORACLE = False
 ASSUMPTIONS = [
-    "asyncio.StreamReader.readexactly consumes nothing until it can return; asyncio.Queue is FIFO and an unbounded "
-    "put never suspends; asyncio.wait_for cancels the inner awaitable at the deadline; asyncio.Lock is released by "
-    "`async with` on exception and cancellation",
-    "TCP segmentation is represented by StreamReader.feed_data chunking; drain() of the in-memory writer yields once "
-    "and never blocks (no back-pressure); wall-clock latency of the alive-check reply is outside the model "
-    "('within the alive-check time' is checked as 'at the virtual instant the request is complete')",
-    "one client task at a time uses the connection (concurrent users of one client are property C05); end-of-stream "
-    "while blocked belongs to C08 and is only touched through frames that kill the reader task",
+    "asyncio.StreamReader.readexactly consumes nothing until it can return; asyncio.Queue is FIFO, `get()` on a non-empty "
+    "queue does not suspend and an unbounded `put` never suspends (that the queues of doip.py ARE unbounded is regenerated "
+    "from the AST and proved: `queues_unbounded`); asyncio.wait_for cancels the inner awaitable at the deadline; asyncio.Lock "
+    "is released by `async with` on exception and cancellation",
+    "TCP segmentation is represented by StreamReader.feed_data chunking; drain() either suspends once (in-memory writer) or "
+    "not at all (plain socket without back-pressure) - both schedules are driven and every theorem holds for an arbitrary "
+    "schedule `yields`; wall-clock latency of the alive-check reply is outside the model ('within the alive-check time' is "
+    "proved and checked as 'in the reader-task step that parsed the request, before the next frame is handled, at the "
+    "virtual instant the request is complete')",
+    "one client task uses the connection (a call issued while another one is pending is not part of the model; concurrent "
+    "users of one client are property C05); between two events the loop comes to rest, i.e. a client call starts when the "
+    "reader task has parsed what has arrived",
+    "exact ties are not generated: a gateway segment arriving at the very instant a call starts or a timer expires (the "
+    "order of equal-time callbacks is an event-loop detail; the model lets timers go first and the caller's timer, armed "
+    "first, win against the 2 s protocol timer); a caller timeout of 0 (asyncio.wait_for special-cases it)",
     "addresses fit 16 bits and protocol version / activation type fit 8 bits (struct.pack refuses anything else)",
+    "an acknowledgement carries nothing that ties it to one request beyond the optional echo: one that arrives after the "
+    "caller gave up (connection still open) stays queued and is what the next write sees first "
+    "(`doip_stale_ack_serves_next_write`, same in the code); after the 2 s acknowledgement time the connection is closed "
+    "and a late acknowledgement serves nothing",
 ]
 
 CFGS = [(0x0E00, 0x001D, 2), (0x0E80, 0x1001, 3), (0xFFFF, 0x0000, 0xFF), (0x0001, 0xFFFF, 1)]
@@ -1181,31 +1192,51 @@ def replay_sys(ctx, script):
 
 
 MANIFEST = {
-    "level_text": ("Lean 4 theorems over an executable model of the DoIP transport: routing activation request layout for all "
-                   "256 activation types / versions / source addresses and 'usable iff the first routing activation response "
-                   "within the activation time carries the success code'; 8-byte-header framing as an instance of the generic "
-                   "cutter (every segmentation yields the same frames; encoded gateway frames are queued exactly as sent; the "
-                   "reader task queues the same frames, answers the same alive checks and ends in the same cases under any two "
-                   "segmentations of one stream); a read delivers the first queued diagnostic message of the configured pair "
-                   "and removes exactly it (iff), successive reads deliver in arrival order, acknowledgement waits keep that "
-                   "order, nothing skipped is lost (also on timeout); a write completes iff the first frame passing the "
-                   "acknowledgement test within the acknowledgement time is a positive or TargetUnreachable acknowledgement, "
-                   "otherwise fails with a connection error no later than that time; the bytes written during a blocked read / "
-                   "write / idle period are exactly one alive-check response per request at its arrival instant (the reader "
-                   "never waits for the client); characterisation of the reordering caused by the tail re-queue of the pinned "
-                   "tree with the concrete witness. Payload types, codes, timing parameters, struct formats, dispatch list and "
-                   "enum _missing_ tables are regenerated from the code on every run and tied by agreement theorems. "
-                   "Correspondence: real DoIPConnection / DoIPTransport over in-memory streams under virtual time on all frame "
-                   "sequences up to length 4 (quick) / 6 (thorough) over the gateway alphabet x 4 injection "
-                   "positions, every single split point of short streams, seeded multi-splits, timing around the "
-                   "acknowledgement time, malformed frames, all 256 activation types and response codes."),
+    "level_text": ("Lean 4 theorems over two executable models of the DoIP transport. (1) Per call (`Model/Doip`): routing activation "
+                   "request layout for all 256 activation types / versions / source addresses and 'usable iff the first routing "
+                   "activation response within the activation time carries the success code'; 8-byte-header framing as an instance "
+                   "of the generic cutter (every segmentation yields the same frames; encoded gateway frames are queued exactly as "
+                   "sent; the reader task queues the same frames, answers the same alive checks and ends in the same cases under any "
+                   "two segmentations of one stream); one read / write with the frames arriving during it. (2) Whole executions "
+                   "(`Model/DoipSys`): one connection as a small-step system; an execution is an ARBITRARY list of events (bytes "
+                   "arriving in any segmentation, write / read / routing activation with caller timeouts, close, end of stream, time "
+                   "passing with the 2 s acknowledgement / activation timers and the caller's timers) under an ARBITRARY schedule of "
+                   "reader task and blocked consumer. Proved for every event list and schedule: reads account for every diagnostic "
+                   "message of the configured pair (payloads handed out ++ those still held / queued / buffered = those of the byte "
+                   "stream, in stream order: none lost, duplicated, invented or reordered, frames skipped by read / acknowledgement / "
+                   "activation waits included, however the waits end); from any reachable idle state a write (resp. read) over any "
+                   "continuation ends with the FIRST frame passing its test among the frames queued at its start and those the stream "
+                   "delivers strictly before its deadline, at that frame's arrival instant (completes iff positive or TargetUnreachable "
+                   "acknowledgement, refused with the code otherwise), else exactly at the deadline with the caller's TimeoutError or - "
+                   "acknowledgement time - a connection error and the connection closed for good, else it is still blocked holding "
+                   "everything seen; every acknowledgement is used by at most one write; the alive-check responses written equal the "
+                   "alive-check requests completely received (one per request, each written before the reader handles the next frame, "
+                   "independent of client phase and connection mutex), the reader handles exactly the frames of the stream in order "
+                   "(unknown payload types dropped without breaking it); frames no call accepts (other address pairs, header nacks) "
+                   "are conserved in order and never reach a read; a closed connection never has a blocked call, stays closed, "
+                   "reads / writes / takes nothing and fails every later call at once; a frame the reader cannot unpack or the end of "
+                   "the stream closes within the same event. Payload types, codes, timing parameters, struct formats, dispatch list, "
+                   "enum _missing_ tables and the capacity of every asyncio.Queue are regenerated from the code on every run and tied "
+                   "by agreement theorems (`queues_unbounded` with a bounded-queue witness). Correspondence: real DoIPConnection / "
+                   "DoIPTransport over in-memory streams under virtual time; per call: all frame sequences up to length 4 (quick) / 6 "
+                   "(thorough) over the gateway alphabet x 4 injection positions, every single split point of short streams, seeded "
+                   "multi-splits, timing around the acknowledgement time, malformed frames (also behind the awaited frame), all 256 "
+                   "activation types and response codes; whole executions: 6 client programs of 2-4 calls x all frame sequences up to "
+                   "length 2 (3 over a reduced alphabet) x every placement into 5 instants, acknowledgements around both kinds of "
+                   "deadline followed by further writes, bursts of 33-80 unconsumed frames with alive checks behind them, frames then "
+                   "end of stream then calls, seeded scripts of 2-6 calls and 0-8 frames at generated times with cuts inside frames, "
+                   "both drain schedules; compared call by call (result, instant) and as whole executions (every byte written with its "
+                   "instant, the reader's trace of frames handled / alive checks answered, final queue, closed flag)."),
     "level_note": ("Trusted: Lean kernel (axioms propext, Quot.sound, Classical.choice), asyncio contracts (StreamReader."
-                   "readexactly, Queue FIFO, wait_for cancellation, Lock release), struct, the generator and the harness. "
-                   "Partial: kernel TCP behaviour, drain() back-pressure and wall-clock latency of the alive-check reply are "
-                   "not modelled ('within the alive-check time' is 'at the virtual instant the request is complete'); one "
-                   "client task at a time (concurrent users are C05); the op-level theorems assume the reader task does not "
-                   "meet a frame it cannot unpack during the call (that case is modelled and tied, its consequences are C08)."),
-    "technique": "Lean 4 proof (generic framing lemma, induction over queues and event timelines) + regenerated tables + "
-                 "differential correspondence against the real DoIPConnection / DoIPTransport under virtual time",
+                   "readexactly, Queue FIFO / non-suspending get on a non-empty queue, wait_for cancellation, Lock release), struct, "
+                   "the generator and the harness (incl. the script-to-event-list runner in the driver). Partial: kernel TCP "
+                   "behaviour, real drain() back-pressure and wall-clock latency of the alive-check reply are not modelled; one client "
+                   "task (concurrent users are C05); client calls start when the loop has come to rest; exact ties of timers / arrivals "
+                   "are not generated; the write / read outcome theorems assume the reader task survives the continuation (what "
+                   "happens when it does not is proved separately: the call ends in that very event, with the frame it was woken with or "
+                   "a connection error; bounded-time recovery is C08)."),
+    "technique": "Lean 4 proof (generic framing lemma; conserved measures and stable predicates lifted over every event list and "
+                 "schedule; induction over the continuation of a pending call) + regenerated tables + differential correspondence "
+                 "against the real DoIPConnection / DoIPTransport under virtual time (per call and whole executions)",
     "design_ref": "DESIGN.md section 7, C06",
 }
